@@ -386,6 +386,29 @@ theorem griddifyRounds_ok (ρ : α) (xs ys : List α) : ∀ (fuel : Nat) (q : Li
       obtain ⟨q2, e2, r2, f2⟩ := ih q1 (good_of_refines hg r1) (by omega)
       exact ⟨q2, by simp only [griddifyRounds, e1, hlen, ↓reduceIte, e2], r1.trans r2, f2⟩
 
+/-- over the whole loop the deque never gets shorter and the number of grid cells inside it never grows. -/
+theorem griddifyRounds_wt (ρ : α) (xs ys : List α) : ∀ (fuel : Nat) (q q' : List (Cell α)), (∀ c ∈ q, CellGood c) →
+    griddifyRounds ρ xs ys fuel q = .ok q' → wtSum xs ys q' ≤ wtSum xs ys q ∧ q.length ≤ q'.length := by
+  intro fuel
+  induction fuel with
+  | zero => intro q q' _ h; simp [griddifyRounds] at h
+  | succ f ih =>
+    intro q q' hg h
+    unfold griddifyRounds at h
+    cases hc : griddifyCells ρ xs ys q with
+    | error e => rw [hc] at h; cases h
+    | ok q1 =>
+      rw [hc] at h; simp only at h
+      have w1 := griddifyCells_wt ρ xs ys q q1 hg hc
+      have l1 := (griddifyCells_noop ρ xs ys q q1 hc).1
+      by_cases hlen : q1.length = q.length
+      · rw [if_pos hlen] at h; injection h with h; subst h; exact ⟨w1, l1⟩
+      · rw [if_neg hlen] at h
+        obtain ⟨q1', e1, r1⟩ := griddifyCells_refines ρ xs ys q hg
+        rw [hc] at e1; injection e1 with e1; subst e1
+        obtain ⟨w2, l2⟩ := ih q1 q' (good_of_refines hg r1) h
+        exact ⟨le_trans w2 w1, le_trans l1 l2⟩
+
 theorem gridFuel_enough (xs ys : List α) (q : List (Cell α)) : wtSum xs ys q < gridFuel xs ys q + q.length := by
   have := wtSum_le xs ys q
   unfold gridFuel
